@@ -1267,6 +1267,94 @@ val read_all_e : body_e -> n list -> bytes -> (bytes * outcome) * body_e
 
 val bufread_all_e : body_e -> n list -> bytes -> (bytes * outcome) * body_e
 
+type sev2 =
+| S2Data of bytes
+| S2Intr
+| S2Fail
+
+val strip2 : sev2 list -> bytes list
+
+val count_nd : sev2 list -> nat
+
+type 's fres =
+| FOk of bytes * 's
+| FErr of ioerr * 's
+| FIntr of 's
+| FFail of 's
+
+val fmap : ('a1 -> 'a2) -> 'a1 fres -> 'a2 fres
+
+type src_f = { bbuf_f : bytes; lo_f : bytes; evs_f : sev2 list;
+               sfuel_f : nat; stake_f : n option }
+
+val mk_src_f : bytes -> sev2 list -> src_f
+
+val mk_src_take_f : bytes -> sev2 list -> n -> src_f
+
+val stream_read_f : n -> sev2 list -> sev2 list fres
+
+val inner_read_f : n -> bytes -> sev2 list -> (bytes * sev2 list) fres
+
+val take_read_f : n -> src_f -> ((bytes * sev2 list) * n option) fres
+
+val with_tail_f : src_f -> bytes -> ((bytes * sev2 list) * n option) -> src_f
+
+val fill_buf_f : src_f -> src_f fres
+
+val consume_f : n -> src_f -> src_f
+
+val buf_read_f : n -> src_f -> src_f fres
+
+val read_exact_loop_f : nat -> n -> src_f -> bytes -> src_f fres
+
+val read_exact_f : n -> src_f -> src_f fres
+
+val read_until_lf_f : nat -> src_f -> bytes -> src_f fres
+
+val read_line_f : src_f -> src_f fres
+
+type fixed_f = { f_src_f : src_f; f_remaining_f : n }
+
+val fixed_read_f : n -> fixed_f -> fixed_f fres
+
+val fixed_fill_buf_f : fixed_f -> fixed_f fres
+
+val fixed_consume_f : n -> fixed_f -> fixed_f
+
+type chunked_f = { c_src_f : src_f; c_state_f : cstate; c_remaining_f : n }
+
+val read_chunk_size_f : chunked_f -> chunked_f fres
+
+val trailer_loop_f : nat -> src_f -> src_f fres
+
+val advance_f : nat -> chunked_f -> chunked_f fres
+
+val adv_fuel_f : chunked_f -> nat
+
+val chunked_read_loop_f : nat -> n -> chunked_f -> bytes -> chunked_f fres
+
+val chunked_read_f : n -> chunked_f -> chunked_f fres
+
+val chunked_fill_buf_f : chunked_f -> chunked_f fres
+
+val chunked_consume_f : n -> chunked_f -> chunked_f
+
+type body_f =
+| BFixed_f of fixed_f
+| BChunked_f of chunked_f
+| BEof_f of src_f
+| BEmpty_f of src_f
+
+val new_fixed_f : bytes -> sev2 list -> n -> body_f
+
+val new_chunked_f : bytes -> sev2 list -> body_f
+
+val body_read_f : n -> body_f -> body_f fres
+
+val body_fill_buf_f : body_f -> body_f fres
+
+val body_consume_f : n -> body_f -> body_f
+
 val hexdig : byte -> bool
 
 val hexdig_val : byte -> n
